@@ -184,7 +184,7 @@ func checkAcceptClosed(e *Env, m *e1Model, cfns []*ssa.Function) {
 					continue
 				}
 				st, ok := a.Type().Underlying().(*types.Slice)
-				if !ok || !types.Identical(st.Elem(), types.Typ[types.String]) {
+				if !ok || !isProblemElem(st.Elem()) {
 					continue
 				}
 				// append(problems, "text") builds a fresh one-element array; append(problems, other...) hands on what
@@ -374,6 +374,60 @@ func checkAcceptClosed(e *Env, m *e1Model, cfns []*ssa.Function) {
 		return false
 	}
 
+	// localProblemList: the []string is accumulated locally (not a field of the policy); a parameter is judged at the call sites
+	var localProblemList func(f *ssa.Function, v ssa.Value, at ssa.Instruction, depth int) bool
+	localProblemList = func(f *ssa.Function, v ssa.Value, at ssa.Instruction, depth int) bool {
+		if depth > 3 {
+			return false
+		}
+		o := res.Of(v, nil, at)
+		switch o.Kind {
+		case origin.KField:
+			return false
+		case origin.KParam:
+			prm, ok := flow.StripConv(v).(*ssa.Parameter)
+			if !ok {
+				if ld, isLoad := flow.StripConv(v).(*ssa.UnOp); isLoad {
+					prm, ok = ld.X.(*ssa.Parameter)
+				}
+			}
+			if !ok {
+				return false
+			}
+			idx := -1
+			for i, q := range f.Params {
+				if q == prm {
+					idx = i
+				}
+			}
+			if idx < 0 {
+				return false
+			}
+			n := 0
+			for _, cf := range fns {
+				for _, ci := range flow.Calls(cf) {
+					call, isCall := ci.(*ssa.Call)
+					if !isCall || call.Call.StaticCallee() == nil {
+						continue
+					}
+					cal := call.Call.StaticCallee()
+					if cal != f && cal.Origin() != f {
+						continue
+					}
+					if idx >= len(call.Call.Args) {
+						return false
+					}
+					n++
+					if !localProblemList(cf, call.Call.Args[idx], call, depth+1) {
+						return false
+					}
+				}
+			}
+			return n > 0
+		}
+		return true
+	}
+
 	// classify: is this edge the rejecting side of a listed defect class?  returns the class name or "".
 	classify := func(f *ssa.Function, ed decidingEdge) string {
 		ifi, _ := flow.LastIf(ed.ifb)
@@ -386,12 +440,10 @@ func checkAcceptClosed(e *Env, m *e1Model, cfns []*ssa.Function) {
 			case *types.Slice:
 				el := u.Elem()
 				switch {
-				case types.Identical(el, types.Typ[types.String]) && pr.NonZero():
-					// problems recorded elsewhere make the call fail
-					if o := res.Of(arg, nil, ifi); o.Kind != origin.KField && o.Kind != origin.KParam {
-						return "recorded-problems"
-					}
-					if o := res.Of(arg, nil, ifi); o.Kind == origin.KCall || o.Kind == origin.KPhi {
+				case isProblemElem(el) && pr.NonZero():
+					// problems recorded elsewhere make the call fail - the list is a local accumulation, not one of the
+					// policy's own string lists (`len(g.Names) > 0` would be a rejection of its own)
+					if localProblemList(f, arg, ifi, 0) {
 						return "recorded-problems"
 					}
 				case namedIs(el, "go-seccomp-bpf", "SyscallGroup") && pr.OnlyZero():
